@@ -1,6 +1,7 @@
 """C10 - bin-covering heuristics meet their approximation guarantees."""
 import random
 from runtime import harness as H
+from props import _ded as D
 from runtime import t3_pack as T
 from props._domains import cover_inputs
 
@@ -39,4 +40,6 @@ def t3(rep, tier, seed):
 def run(rep, tier, seed):
     rep.level = "exploration"
     rep.assume("A1", "A4", "A6", "A7", "A8")
+    D.run_contracts(rep, "C10", D.COVER, tier, with_lemmas=True, also=('C05',))
     t3(rep, tier, seed)
+    D.link_falsifier(rep)
